@@ -7,7 +7,7 @@
 use std::{
     collections::{BTreeMap, BTreeSet},
     io::Write,
-    path::{Path, PathBuf},
+    path::PathBuf,
     sync::{Arc, Mutex},
 };
 
